@@ -109,6 +109,9 @@ PROPS["C11"] = {
           True, "complete: all 2^64 inputs resp. every atom of at most 10 (6) bytes, loops bounded by operand width (unwind 11/12, unwinding assertions on)"),
         # every integer width of the clvm-traits conversions and MatchByte at the boundaries, against the interpreter's own form
         N("native_ints_ground", "ints_ground"),
+        # the places that append an amount to a signature message: the stand-alone helper and the inline path of the
+        # condition parser are each proved to append canon(amount) (units of C05, which this property's statement names)
+        V("aggsig"), V("conditions_aggsig"),
     ],
     "assumptions": [
         "shim contracts: u64::to_be_bytes == be8, array/slice range indexing == subrange, Vec::extend == concatenation",
@@ -130,7 +133,9 @@ PROPS["C01"] = {
                    # ground verdicts the rules prescribe (concurrent spends, announcements, messages, ephemeral coins, limits)
                    N("native_relations_ground", "relations_ground", thorough_task="relations_ground:thorough"),
                    # the mempool eligibility flags of the reported summary (dedup, fast-forward) across spends
-                   N("native_dedup_ground", "dedup_ground")],
+                   N("native_dedup_ground", "dedup_ground"),
+                   # the summary as handed out (OwnedSpendBundleConditions): every field equals the parsed summary's
+                   N("native_paths_ground", "paths_ground")],
     "assumptions": [
         "clvmr::Allocator accessor contracts over an abstract immutable tree (shims/clvmr.rs)",
         "bitflags contains() == bit test on the constants read from flags.rs",
